@@ -90,3 +90,59 @@ func hSparse(name string, n int) []byte {
 	}
 	return b
 }
+
+// VerifC03_CrashInLargeCommit: a transaction of 36 puts of 30 000 bytes each - more than 1 MiB, larger than the log
+// buffer and than every internal budget of the write path (quick tier: 3 puts, 90 KB, larger than the log buffer) -
+// is committed and the process dies at any file-system
+// step of the commit (both crash models). After recovery all keys are there or none; an acknowledged commit is
+// there completely. (The torn single write is the recorded finding of VerifC03_CrashInCommit.)
+func VerifC03_CrashInLargeCommit() {
+	h := &hEnv{}
+	nkeys := 3 // quick tier: 90 KB, larger than the log buffer
+	if vsym.Thorough() {
+		nkeys = 36
+	}
+	var keys, vals [36][]byte
+	for i := 0; i < nkeys; i++ {
+		keys[i] = []byte{0xE0, byte(i)}
+		vals[i] = make([]byte, 30000)
+		for j := range vals[i] {
+			vals[i][j] = byte(j*11 + i)
+		}
+		vals[i][0] = vsym.Byte("v")
+	}
+	mode := vsym.IntRange("mode", 1, 2)
+	acked := 0
+	h.hOpen(true, false)
+	vsym.Durable()
+	vsym.CrashRegion(mode, func() {
+		tx, err := h.e.BeginTransaction(false)
+		if err != nil {
+			return
+		}
+		for i := 0; i < nkeys; i++ {
+			if tx.Put(keys[i], vals[i]) != nil {
+				return
+			}
+		}
+		if tx.Commit() == nil {
+			acked = 1
+		}
+	}, &acked)
+	vsym.Region("KF-C03-torn-batch-write", vsym.CrashKind() >= 2)
+	h.hOpen(false, false)
+	present := 0
+	for i := 0; i < nkeys; i++ {
+		got, gerr := h.e.Get(keys[i])
+		if gerr == nil {
+			present++
+			vsym.Assert(len(got) == len(vals[i]) && vsym.EqBytes(got, vals[i]), "recovered value of a transaction key differs from what was committed")
+		}
+	}
+	vsym.Observe("present", present)
+	vsym.Assert(present == 0 || present == nkeys, "crash recovery shows a strict subset of a large transaction's writes")
+	if acked == 1 {
+		vsym.Assert(present == nkeys, "an acknowledged large commit is missing after crash recovery")
+	}
+	vsym.Reach("done")
+}
